@@ -60,6 +60,7 @@ let out_meta k (m : rle_meta) =
 
 let sample_index i count =
   if count <= 96 then true
+  else if count > 10000 then i < 3 || i + 3 >= count || i mod (count / 6 + 1) = 0
   else if i < 8 || i + 8 >= count then true
   else i mod (count / 16 + 1) = 0
 
